@@ -13,7 +13,7 @@ use std::io::{Read, Write};
 use std::process::{Command, Stdio};
 
 fn usage() -> ! {
-    eprintln!("usage:\n  pvh_machine run <programs.ndjson> <out.ndjson> <layouts> <seed>\n  pvh_machine gen <count> <seed> <out.ndjson>\n  pvh_machine compile-one   (source on stdin)\n  pvh_machine show <program-json>");
+    eprintln!("usage:\n  pvh_machine run <programs.ndjson> <out.ndjson> <layouts> <seed>\n  pvh_machine gen <count> <seed> <out.ndjson> [size]\n  pvh_machine compile-one   (source on stdin)\n  pvh_machine show <program-json>");
     std::process::exit(2)
 }
 
@@ -31,7 +31,9 @@ fn compile_one() {
 
 /// compile in a child process; returns the child's JSON or a crash record
 fn compile_isolated(source: &str) -> Value {
-    let exe = std::env::current_exe().unwrap();
+    // the running image, even if the file was replaced by a rebuild meanwhile (`current_exe()` would then name
+    // a deleted file and the wrapper would fail with status 127)
+    let exe = format!("/proc/{}/exe", std::process::id());
     let child = Command::new("timeout")
         .arg("20")
         .arg(exe)
@@ -49,6 +51,8 @@ fn compile_isolated(source: &str) -> Value {
     match out.status.code() {
         Some(0) => serde_json::from_slice(&out.stdout).unwrap_or(json!({"toolerror": "bad child output"})),
         Some(124) => json!({"crash": "timeout"}),
+        // the wrapper itself failed (125), or the command could not be run (126, 127): the machinery, not penne
+        Some(c @ (125 | 126 | 127)) => json!({"toolerror": format!("timeout wrapper exit {c}: {}", String::from_utf8_lossy(&out.stderr).chars().take(300).collect::<String>())}),
         Some(c) => json!({"crash": format!("exit {c}"), "stderr": String::from_utf8_lossy(&out.stderr).chars().take(400).collect::<String>()}),
         None => json!({"crash": "signal", "stderr": String::from_utf8_lossy(&out.stderr).chars().take(400).collect::<String>()}),
     }
@@ -65,6 +69,8 @@ fn run_source(source: &str) -> Value {
     let ir = c["ir"].as_str().unwrap_or("");
     match alpha::run_lli(ir, 10) {
         Ok((stdout, code)) => json!({"stdout": stdout, "exit": code, "lints": c["lints"]}),
+        // lli could not be started / waited for: the machinery, not the program
+        Err(e) if e.starts_with("spawn lli") || e.starts_with("wait lli") => json!({"toolerror": e}),
         Err(e) => json!({"lli": e}),
     }
 }
@@ -123,12 +129,19 @@ fn main() {
             }
             let count: usize = args[1].parse().unwrap();
             let seed: u64 = args[2].parse().unwrap();
-            let progs: Vec<String> = (0..count).map(|i| gen_programs::program(seed, i as u64).to_string()).collect();
+            let size: usize = args.get(4).and_then(|x| x.parse().ok()).unwrap_or(1);
+            let progs: Vec<String> = (0..count).map(|i| gen_programs::program(seed, i as u64, size).to_string()).collect();
             write_lines(&args[3], &progs);
         }
         "show" => {
-            let p: Value = serde_json::from_str(&args[1]).expect("json");
-            let src = render::program(&p, &mut render::Layout::canonical());
+            // show <program-json | @file> [layout-seed layout-stream]
+            let text = if let Some(path) = args[1].strip_prefix('@') { std::fs::read_to_string(path).expect("file") } else { args[1].clone() };
+            let p: Value = serde_json::from_str(&text).expect("json");
+            let src = if args.len() >= 4 {
+                render::program(&p, &mut render::Layout::random(args[2].parse().unwrap(), args[3].parse().unwrap()))
+            } else {
+                render::program(&p, &mut render::Layout::canonical())
+            };
             println!("{src}");
             println!("{}", run_source(&src));
         }
